@@ -195,30 +195,29 @@ def run(tier, seed):
                 "non-trivial = requested visibility differs from the item's own visibility")
     specs = enumerate_cases()
     cases = [build("c13_%03d" % i, s) for i, s in enumerate(specs)]
-    libsrc = "#![allow(warnings)]\n" + "\n".join(c.meta["lib"] for c in cases)
-    # the lib part of every case lives in one library crate, the bin shard is the second crate
-    files = {"Cargo.toml": "[package]\nname = \"%s\"\nversion = \"0.0.0\"\nedition = \"2021\"\n[dependencies]\nentrait = { path = \"%s\" }\nvrt = { path = \"../vrt\" }\n" % (LIB, core.REPO),
-             "src/lib.rs": libsrc}
+    # the lib part of every case is its own module file of one library crate (diagnostics are attributed by file
+    # name); the bin shard is the second crate
+    def lib_files(live):
+        files = {"Cargo.toml": "[package]\nname = \"%s\"\nversion = \"0.0.0\"\nedition = \"2021\"\n[dependencies]\nentrait = { path = \"%s\" }\nvrt = { path = \"../vrt\" }\n" % (LIB, core.REPO)}
+        root = ["#![allow(warnings)]"]
+        for c in live:
+            if "lib" not in c.meta:
+                continue
+            tree, obs = c.meta["lib"].split("pub mod %s_obs" % c.id)
+            inner = tree.strip()[len("pub mod %s {" % c.id):].rstrip()[:-1]
+            files["src/%s.rs" % c.id] = inner
+            root.append("pub mod %s;" % c.id)
+            root.append("pub mod %s_obs%s" % (c.id, obs))
+        files["src/lib.rs"] = "\n".join(root) + "\n"
+        return files
     st = selftest.case("selftest_c13")
-    ws = core.Workspace(PROP, "x", extra_crates={LIB: files}, nshards=4)
+    ws = core.Workspace(PROP, "x", extra_crates={LIB: lib_files}, nshards=4)
     ws.extend(cases + [st])
     ws.write()
     b = ws.build()
     ws.run(b["exes"])
     selftest.verify(st)
-    # records of the lib crate are joined by line: map lib.rs lines to cases
-    allrec = core.load_dump(b["dump"])
-    librecs = [r for r in allrec if r["file"].endswith("lib.rs") and LIB in r["file"]]
-    line = 2
-    spans = []
-    for c in cases:
-        nl = c.meta["lib"].count("\n") + 1
-        spans.append((line, line + nl - 1, c))
-        line += nl
-    for r in librecs:
-        for lo, hi, c in spans:
-            if lo <= r["line"] <= hi:
-                c.records.append(r)
+    # records of the lib crate carry the case's file name (src/<cid>.rs), so they were attached by the driver
     by = {c.id: c for c in cases}
     for c in cases:
         m = c.meta
